@@ -22,7 +22,13 @@ void fill_data<int64_t>(int64_t* a, uint64_t nn, int dfam, Rng& r) {
     int64_t c = 1 + (int64_t)r.below(1000), d = (int64_t)r.below(1000);
     for (uint64_t i = 0; i < nn; ++i) a[i] = (int64_t)(i + 1) * c + d;
   } else {
+    // random values; one limb in four has a structure that a value-dependent shortcut would test for: multiples of 2^32 (distinct,
+    // so still an injective probe), a single non-zero coefficient, or the zero polynomial
+    const uint64_t st = r.below(12);
     for (uint64_t i = 0; i < nn; ++i) a[i] = r.sbits(62);
+    if (st == 0) for (uint64_t i = 0; i < nn; ++i) a[i] = (int64_t)((i + 1) * (1 + r.below(1000))) << 32;
+    else if (st == 1) { const uint64_t keep = r.below(3) == 0 ? nn - 1 : r.below(nn); for (uint64_t i = 0; i < nn; ++i) if (i != keep) a[i] = 0; }
+    else if (st == 2) for (uint64_t i = 0; i < nn; ++i) a[i] = 0;
   }
 }
 template <>
